@@ -491,51 +491,65 @@ pub fn batch(root: u64, runs: u64, workers: usize) -> Batch {
         stats.log.clear();
         One { stats, failure: r.err().map(|f| (ops, f)), sample, log_hash }
     };
-    let results = crate::util::run_pool(runs, workers, one);
-    let mut b = Batch { runs, ops: 0, gcs: 0, gcs_freeing_proper_subset: 0, gcs_freeing_cycle: 0, distinct_sigs: 0, probes: BTreeMap::new(), violations: Vec::new(), samples: Vec::new(), determinism_reexecuted: 0, determinism_mismatches: 0, hashes: results.iter().map(|r| r.log_hash).collect() };
+    let mut b = Batch { runs, ops: 0, gcs: 0, gcs_freeing_proper_subset: 0, gcs_freeing_cycle: 0, distinct_sigs: 0, probes: BTreeMap::new(), violations: Vec::new(), samples: Vec::new(), determinism_reexecuted: 0, determinism_mismatches: 0, hashes: Vec::new() };
     let mut sigs: std::collections::HashSet<u64> = std::collections::HashSet::new();
     let mut classes_seen: BTreeMap<String, u32> = BTreeMap::new();
-    for (i, r) in results.iter().enumerate() {
-        b.ops += r.stats.ops;
-        b.gcs += r.stats.gcs;
-        b.gcs_freeing_proper_subset += r.stats.gcs_freeing_proper_subset;
-        b.gcs_freeing_cycle += r.stats.gcs_freeing_cycle;
-        crate::util::merge_counts(&mut b.probes, &r.stats.probes);
-        sigs.extend(r.stats.nontrivial_sigs.iter().copied());
-        if let Some(s) = &r.sample {
-            b.samples.push(s.clone());
-        }
-        if let Some((ops, f)) = &r.failure {
-            let n = classes_seen.entry(f.class.clone()).or_insert(0);
-            *n += 1;
-            if *n == 1 && crate::util::claim_minimisation(&f.class) {
-                // minimise, confirm, report
-                let min_ops = minimise(ops, &f.class);
-                let mut st = RunStats::default();
-                match run_caught(&min_ops, &mut st) {
-                    Err(f2) if f2.class == f.class => b.violations.push(to_violation(&min_ops, &f2, i as u64, &st.log, true)),
-                    _ => {
-                        let mut st = RunStats::default();
-                        let _ = run_caught(ops, &mut st);
-                        b.violations.push(to_violation(ops, f, i as u64, &st.log, false));
+    let keep_hashes = std::env::var("VERIF_HASH_DUMP").is_ok();
+    // determinism sample: ~2 % of the runs (at most 50 000) are re-executed single-threaded at the end
+    let step = (runs / (runs / 50).clamp(16, 50_000).min(runs.max(1))).max(1);
+    let mut sampled: Vec<(u64, u64)> = Vec::new();
+    // results are folded chunk by chunk so that memory does not grow with the batch size
+    const CHUNK: u64 = 500_000;
+    let mut base = 0u64;
+    while base < runs {
+        let n = CHUNK.min(runs - base);
+        let results = crate::util::run_pool(n, workers, |k| one(base + k));
+        for (k, r) in results.iter().enumerate() {
+            let i = base + k as u64;
+            if keep_hashes {
+                b.hashes.push(r.log_hash);
+            }
+            if i % step == 0 {
+                sampled.push((i, r.log_hash));
+            }
+            b.ops += r.stats.ops;
+            b.gcs += r.stats.gcs;
+            b.gcs_freeing_proper_subset += r.stats.gcs_freeing_proper_subset;
+            b.gcs_freeing_cycle += r.stats.gcs_freeing_cycle;
+            crate::util::merge_counts(&mut b.probes, &r.stats.probes);
+            sigs.extend(r.stats.nontrivial_sigs.iter().copied());
+            if let Some(s) = &r.sample {
+                b.samples.push(s.clone());
+            }
+            if let Some((ops, f)) = &r.failure {
+                let n = classes_seen.entry(f.class.clone()).or_insert(0);
+                *n += 1;
+                if *n == 1 && crate::util::claim_minimisation(&f.class) {
+                    // minimise, confirm, report
+                    let min_ops = minimise(ops, &f.class);
+                    let mut st = RunStats::default();
+                    match run_caught(&min_ops, &mut st) {
+                        Err(f2) if f2.class == f.class => b.violations.push(to_violation(&min_ops, &f2, i, &st.log, true)),
+                        _ => {
+                            let mut st = RunStats::default();
+                            let _ = run_caught(ops, &mut st);
+                            b.violations.push(to_violation(ops, f, i, &st.log, false));
+                        }
                     }
+                } else if b.violations.len() < 200 {
+                    b.violations.push(to_violation(ops, f, i, "", false));
                 }
-            } else {
-                b.violations.push(to_violation(ops, f, i as u64, "", false));
             }
         }
+        base += n;
     }
     b.distinct_sigs = sigs.len();
-    // determinism sample: re-execute 2 % (at least 16) of the runs, single-threaded
-    let step = (runs / (runs / 50).max(16).min(runs.max(1))).max(1);
-    let mut i = 0;
-    while i < runs {
+    for (i, h) in sampled {
         let again = one(i);
         b.determinism_reexecuted += 1;
-        if again.log_hash != results[i as usize].log_hash {
+        if again.log_hash != h {
             b.determinism_mismatches += 1;
         }
-        i += step;
     }
     b
 }
